@@ -119,6 +119,11 @@ func (_this *RootObjectIterator) addLocalReference(v reflect.Value) (didGenerate
 		return false
 	}
 
+	if v.Kind() == reflect.Array {
+		// Arrays are values, not references: they cannot be shared or cyclic.
+		return false
+	}
+
 	ptr := duplicates.TypedPointerOfRV(v)
 	if !_this.foundReferences[ptr] {
 		return false
